@@ -283,8 +283,6 @@ func ResolveStateConflictsV2New(
 
 	r.allower = newAllowerContext(r.authProvider, userIDForSender, *roomID)
 
-	unconflictedSet := newPDUSet(unconflicted)
-
 	// Get the full conflicted set, that is the conflicted events and the
 	// auth difference (events that don't appear in all auth chains).
 	fullConflictedSet := append(conflicted, r.calculateAuthDifferenceNew(stateResAlgo, newPDUSet(conflicted), stateSets)...)
@@ -308,7 +306,7 @@ func ResolveStateConflictsV2New(
 			if !ok {
 				continue
 			}
-			if related, ok := fullConflictedMap[authEventID]; ok && !unconflictedSet.Contains(related) {
+			if related, ok := fullConflictedMap[authEventID]; ok {
 				if _, ok := conflictedPulledIn[authEventID]; !ok {
 					conflictedPulledIn[authEventID] = struct{}{}
 					conflictedControlEvents = append(conflictedControlEvents, related)
@@ -318,9 +316,6 @@ func ResolveStateConflictsV2New(
 		}
 	}
 	for _, p := range fullConflictedSet {
-		if unconflictedSet.Contains(p) {
-			continue
-		}
 		if isControlEvent(p) {
 			if _, ok := conflictedPulledIn[p.EventID()]; !ok {
 				conflictedPulledIn[p.EventID()] = struct{}{}
@@ -334,7 +329,7 @@ func ResolveStateConflictsV2New(
 	// that were left over from the last loop — that is, events that are
 	// either not control events or weren't pulled in to the control set.
 	for _, p := range fullConflictedSet {
-		if unconflictedSet.Contains(p) || isControlEvent(p) {
+		if isControlEvent(p) {
 			continue
 		}
 		if _, ok := conflictedPulledIn[p.EventID()]; !ok {
